@@ -817,7 +817,15 @@ def judge_model(prog, model, names, out_names):
         so.log_severity_level = 4
         sess = ort.InferenceSession(model.SerializeToString(), so, providers=["CPUExecutionProvider"])
     except Exception as e:  # noqa: BLE001
-        return ("runtime-rejects", str(e).splitlines()[0][:200])
+        # onnxruntime 1.30's graph optimizer fails by itself on some valid models (Identity elimination next
+        # to a converted Softmax: "GetIndexFromName ... _new_reshape"): a model is rejected only if it is
+        # rejected with the optimizations switched off as well
+        try:
+            so.graph_optimization_level = ort.GraphOptimizationLevel.ORT_DISABLE_ALL
+            sess = ort.InferenceSession(model.SerializeToString(), so, providers=["CPUExecutionProvider"])
+            UNSUPPORTED.append(("runtime-optimizer-fails", str(e).splitlines()[0][:120]))
+        except Exception:  # noqa: BLE001
+            return ("runtime-rejects", str(e).splitlines()[0][:200])
     if out_names is not None and [o.name for o in model.graph.output] != list(out_names):
         return ("outputs-misnamed", f"outputs {[o.name for o in model.graph.output]}, requested {list(out_names)}")
     roles = names
@@ -1035,7 +1043,7 @@ def gen_programs(ck, escalate=False):
     as many programs of the two families that exercise adaptation hardest, whatever was changed."""
     rng = ck.rng
     progs = []
-    n = ck.pick(1200, 20000)
+    n = ck.pick(1050, 18000)
     for i in range(n):
         r = rng.random()
         clean = r < 0.85
@@ -1061,7 +1069,7 @@ def gen_programs(ck, escalate=False):
         if clean and not has_dyn and "with_opset" not in prog and rng.random() < 0.13:
             # 2-3 builds over the same Vars, the names given to build changing between them
             progs.append(("history-names", L.make_history(rng, prog, i)))
-    for i in range(ck.pick(150, 2500) * (3 if escalate else 1)):
+    for i in range(ck.pick(150, 2000) * (3 if escalate else 1)):
         progs.append(("inline-mix", L.inline_mix_program(rng, i)))
     if escalate:
         k = 0
